@@ -954,6 +954,131 @@ Lemma unserved_resend_not_stuck :
   st (final cfg0 w_acceptor [i_logon 1; OIn (inbound (S "2") 2 [(T7, S "9"); (T16, S "0")]) 0]) = ST_ACTIVE.
 Proof. vm_compute. reflexivity. Qed.
 
+(* ------------------------------------------------------------------ LOGON_INITIAL_RECV belongs to the acceptor *)
+
+(* the state LOGON_INITIAL_RECV is only ever set together with the ACCEPTOR role, and the role changes only
+   together with a state change: the R8c send gate (role <> INITIATOR) therefore covers every connection that
+   the library itself brought into LOGON_INITIAL_RECV *)
+Definition recv_acc (w : world) : Prop := st w = ST_LOGON_RECV -> role w = ROLE_ACCEPTOR.
+
+Lemma keeps_ra_pres {A} (k : M A) : pres st k -> pres role k -> keeps recv_acc k.
+Proof. intros H1 H2 w Hw. unfold recv_acc. rewrite (H1 w), (H2 w). exact Hw. Qed.
+
+Lemma state_set_ra s : s <> ST_LOGON_RECV -> keeps recv_acc (state_set s).
+Proof. intros Hs w _. unfold recv_acc. rewrite state_set_st. intros H. congruence. Qed.
+
+Lemma send_msg_ra c m : keeps recv_acc (send_msg c m).
+Proof.
+  intros w Hw.
+  assert (Hr : st (rw (send_msg c m w)) = st w -> role (rw (send_msg c m w)) = role w).
+  { unfold send_msg. rewrite bind_unfold. cbn [getw rv rw re]. rewrite bind_unfold.
+    assert (Ht : forall w0, pres st (send_tail c m w0)) by (intros; apply send_tail_pres; ins_solve).
+    assert (Hq : forall w0, pres role (send_tail c m w0)) by (intros; apply send_tail_pres; ins_solve).
+    unfold send_gate.
+    destruct (st w <? ST_NCE) eqn:E1; [reflexivity|].
+    destruct (st w =? ST_NCE) eqn:E2.
+    - destruct (mkind m); try reflexivity; cbn [rv rw re bind]; cbn; rewrite ?Ht, ?Hq; cbn; intros H; exfalso; stlia.
+    - destruct (_ && _ && _); [reflexivity|]. destruct (_ && _ && _); [reflexivity|].
+      cbn [ret rv rw re]. rewrite Hq. reflexivity. }
+  destruct (send_msg_st c m w) as [E|[E1 E2]]; unfold recv_acc.
+  - rewrite E, (Hr E). exact Hw.
+  - rewrite E2. intros H. exfalso. stlia.
+Qed.
+
+Ltac kra :=
+  repeat first
+    [ keeps_step
+    | match goal with
+      | |- keeps _ (modw _) => apply keeps_modw; intros ? ?; assumption
+      | |- keeps recv_acc (state_set _) => apply state_set_ra; stlia
+      | |- keeps recv_acc (send_msg _ _) => apply send_msg_ra
+      | |- keeps recv_acc (set_seq_num _ _) => apply keeps_ra_pres; [apply set_seq_num_st|apply set_seq_num_pres; [ins_solve|intros _; cbn; intros; reflexivity|intros _; cbn; intros; reflexivity]]
+      | |- keeps recv_acc (recover_out _ _) => apply keeps_ra_pres; apply recover_out_pres
+      | |- keeps recv_acc (persist_in _) => apply keeps_ra_pres; apply persist_in_pres; ins_solve
+      | |- keeps recv_acc (set_next_num_in _) => apply keeps_ra_pres; apply set_next_num_in_pres; ins_solve
+      end ].
+
+Lemma disconnect_ra c ds lm : keeps recv_acc (disconnect c ds lm).
+Proof.
+  unfold disconnect. keeps_step; [keeps_tac|]. destruct (st a <=? ST_DISC_BROKEN); [keeps_tac|].
+  destruct (ds <=? ST_DISC_BROKEN) eqn:E; [|apply keeps_bind_raise].
+  keeps_step; [keeps_tac|]. keeps_step; [kra|].
+  keeps_step; [destruct lm; kra|]. keeps_step; [kra|]. keeps_step; [|keeps_tac].
+  apply state_set_ra. stlia.
+Qed.
+
+Lemma replay_loop_ra c rows : forall a b, keeps recv_acc (replay_loop c rows a b).
+Proof.
+  induction rows as [|r rows IH]; intros a b; cbn [replay_loop]; cbv zeta; [keeps_tac|].
+  keeps_step; [keeps_tac|]. keeps_step; [keeps_tac|]. destruct (_ || _); [apply IH|].
+  keeps_step; [kra|]. keeps_step; [keeps_tac|]. keeps_step; [keeps_tac|].
+  keeps_step; [kra|apply IH].
+Qed.
+
+Lemma restore_handling_ra : keeps recv_acc restore_handling.
+Proof. unfold restore_handling. kra. Qed.
+
+Lemma process_message_ra c m now : keeps recv_acc (process_message c m now).
+Proof.
+  intros w Hw. unfold process_message. destruct (validate_integrity c m w); try (apply disconnect_ra; exact Hw); [|exact Hw].
+  revert w Hw. change (keeps recv_acc (r1 <- try_ (part1 c m) ;; after_part1 c m now r1)).
+  keeps_step.
+  - apply keeps_try. unfold part1. keeps_step; [keeps_tac|]. destruct (st a <? ST_NCE); [keeps_tac|].
+    destruct (early_drop m a); [keeps_step; [apply disconnect_ra|keeps_tac]|].
+    keeps_step.
+    + unfold pre_handlers. keeps_step.
+      { destruct (st a =? ST_NCE); [|keeps_tac]. intros w _. unfold recv_acc. cbn. reflexivity. }
+      destruct (mkind m); try solve [keeps_tac].
+      * unfold process_logon. kra.
+      * unfold process_seqreset. kra.
+      * unfold logout_counted. keeps_step; [keeps_tac|]. keeps_step; [keeps_tac|].
+        keeps_step; [kra|].
+        unfold process_logout. keeps_step; [keeps_tac|]. keeps_step; [keeps_tac|]. apply disconnect_ra.
+    + unfold gap_check. keeps_step; [keeps_tac|]. destruct (st a1 <=? ST_DISC_BROKEN); [keeps_tac|].
+      keeps_step; [keeps_tac|]. keeps_step; [|keeps_tac]. unfold check_gaps. kra.
+  - assert (Hdis : forall v, keeps recv_acc (dispatch c m v)).
+    { intros v. unfold dispatch. destruct (mkind m); try solve [keeps_tac].
+      - apply keeps_finally; [|apply restore_handling_ra].
+        unfold process_resend.
+        assert (Hl : forall rows a b, keeps recv_acc (replay_loop c rows a b)) by apply replay_loop_ra.
+        keeps_step; [keeps_tac|]. keeps_step; [kra|]. keeps_step; [keeps_tac|]. keeps_step; [keeps_tac|].
+        keeps_step; [kra|]. keeps_step; [keeps_tac|]. keeps_step; [apply Hl|].
+        kra.
+      - unfold process_testrequest. kra.
+      - unfold process_heartbeat. keeps_step; [keeps_tac|]. destruct (treq a0); [|keeps_tac].
+        destruct (get T112 (mtags m)); [|keeps_tac]. destruct (negb _); [apply disconnect_ra|kra]. }
+    assert (Hfin : keeps recv_acc (finalize m now)).
+    { unfold finalize, finalize_tail. kra. }
+    unfold after_part1. destruct a as [[[|]|]|]; try solve [keeps_tac].
+    + keeps_step; [apply keeps_try, Hdis|apply Hfin].
+    + keeps_step; [apply keeps_try, Hdis|keeps_tac].
+Qed.
+
+Lemma step_ra c o : keeps recv_acc (step c o).
+Proof.
+  destruct o as [m now|m|now|ds lm]; cbn [step].
+  - apply process_message_ra.
+  - apply send_msg_ra.
+  - unfold send_test_req. kra.
+  - apply disconnect_ra.
+Qed.
+
+Lemma run_recv_is_acceptor c h : forall w,
+  recv_acc w -> Forall (fun s => recv_acc (s_before s) /\ recv_acc (s_after s)) (run c w h).
+Proof.
+  induction h as [|o h IH]; intros w Hw; cbn [run]; constructor.
+  - split; [exact Hw|]. unfold s_after. cbn. apply (step_ra c o w Hw).
+  - apply IH. apply (step_ra c o w Hw).
+Qed.
+
+(* hence, on every connection the library brought into LOGON_INITIAL_RECV, only Logon / Logout can be sent *)
+Lemma logon_recv_send_gate c m w :
+  recv_acc w -> st w = ST_LOGON_RECV -> mkind m <> KLogon -> mkind m <> KLogout ->
+  send_msg c m w = mkR (inr XConn) w [].
+Proof.
+  intros Hw Hs Hk1 Hk2. apply acceptor_send_gate; auto. rewrite (Hw Hs). discriminate.
+Qed.
+
 (* ------------------------------------------------------------------ boolean class predicates, witnesses *)
 
 Definition i_resend (seq b e : Z) := OIn (inbound (S "2") seq [(T7, z_to_dec b); (T16, z_to_dec e)]) 0.
